@@ -174,6 +174,10 @@ ObsOK(idx, o) ==
                /\ o.df = Len(pl) /\ o.tf = SumW(pl)                  \* document frequency, total weight
                /\ (Len(pl) > 0 => o.minid = pl[1][1] /\ o.maxid = pl[Len(pl)][1])
                /\ (Len(pl) > 0 => o.maxw = Max({pl[i][2] : i \in DOMAIN pl}))
+               \* lengths are kept in one byte: exact up to 10, so asserted when every document of the list is that short
+               /\ LET lens == {FieldLen(idx, pl[i][1], o.f) : i \in DOMAIN pl}
+                  IN ("lenstats" \in DOMAIN o /\ o.lenstats /\ Len(pl) > 0 /\ \A n \in lens : n <= 10)
+                       => (o.minlen = Min(lens) /\ o.maxlen = Max(lens))
     [] o.kind = "livekeys" ->     \* keys of the live documents the reader delivers, each once
          /\ ToSet(o.keys) = ModelLive(o.ops, Len(o.ops))
          /\ Cardinality(ToSet(o.keys)) = Len(o.keys)
